@@ -153,6 +153,33 @@ def correspond(ctx, drivers):
                          r['obs'][n] if n < len(r['obs']) else None, m['obs'][n] if n < len(m['obs']) else None,
                          f'operation {n} {c["ops"][n][0]}')
             ctx.extra.setdefault('_disagree_cases', []).append(c)
+    # histories continued on a damaged directory file: the last written directory is replaced by a copy with
+    # one change (as if written by another tool / corrupted), then reopened read-only and observed
+    # (read() of short/misplaced data, verify_all() false, missing archives, decode errors)
+    planted = []
+    for c, r in zip(cases, res):
+        if len(planted) >= ctx.budget(250, 2500):
+            break
+        if r['dirs'] and len(r['dirs'][-1]) < 3000 and c['ops'][-3][0] == 'flush' and not r['fails']:
+            for m in U.mutants(rng, r['dirs'][-1], 1):
+                planted.append({'single': c['single'], 'ops': c['ops'][:-2] + [['plant', m.hex()], ['open', 'r', None], ['check'],
+                                                                            ['open', 'a', 16], ['check']]})
+    pres = [U.run_case(c, oracle=False) for c in planted]
+    preps = drv.batch([{'op': 'run', **c} for c in planted], timeout=900)
+    for c, r, m in zip(planted, pres, preps):
+        ctx.case(_summary(c), nontrivial=True, sample_every=211)
+        ctx.traces_vs_impl += 1
+        ctx.count('history continued on a damaged directory file')
+        last = r['obs'][-4]
+        ctx.count('  damaged: reopen -> ' + (last if isinstance(last, str) else 'ok'))
+        if isinstance(r['obs'][-3], dict) and r['obs'][-3].get('verify') is not True:
+            ctx.count(f"  damaged: verify_all -> {r['obs'][-3].get('verify')}")
+        if isinstance(r['obs'][-3], dict) and any(isinstance(x, str) for x in r['obs'][-3].get('reads', [])):
+            ctx.count("  damaged: a read() raised")
+        if 'error' in m or r['obs'] != m.get('obs'):
+            n = next((i for i, (a, b) in enumerate(zip(r['obs'], m.get('obs', []))) if a != b), -1)
+            ctx.disagree(_summary({'single': c['single'], 'ops': c['ops'][max(0, n - 3):n + 1]}), r['obs'][n] if n >= 0 else None,
+                         m.get('obs', m)[n] if n >= 0 and 'obs' in m else m, f'damaged directory, operation {n}')
     # independent decode of produced directory files + damaged copies
     dirs = []
     seen = set()
